@@ -8,7 +8,7 @@ from collections import Counter
 
 from engine.effects import walk_stmts
 from engine.hierarchy import PARAMETER
-from engine.loader import norm
+from engine.loader import AnalysisError, norm
 
 WIDTH = {"Y": 4, "m": 2, "d": 2, "H": 2, "M": 2, "S": 2, "f": 6, "j": 3, "y": 2}
 TIME_DIRECTIVES = set("HMSfIp")
@@ -35,9 +35,50 @@ def fmt_width(fmt):
     return w
 
 
+_RESOLVE = {"ctx": None, "cls": None}
+
+
+def _format_text(arg):
+    """The text of a format argument: a literal, a class-level constant (`cls.X` / `self.X`, looked up along the MRO) or a
+    module-level constant.  Anything else cannot be compared: AnalysisError, never a silent pass."""
+    if isinstance(arg, ast.Constant) and isinstance(arg.value, str):
+        return arg.value
+    ctx, q = _RESOLVE["ctx"], _RESOLVE["cls"]
+    if ctx is not None and q is not None:
+        if isinstance(arg, ast.Attribute) and isinstance(arg.value, ast.Name) and arg.value.id in ("cls", "self"):
+            for k in ctx.hier.mro(q):
+                c = ctx.repo.classes.get(k)
+                v = c.class_assign(arg.attr) if c is not None else None
+                if v is not None:
+                    if isinstance(v, ast.Constant) and isinstance(v.value, str):
+                        return v.value
+                    break
+        if isinstance(arg, ast.Name):
+            mod = ctx.repo.classes[q].module
+            vals = [st.value for st in mod.tree.body if isinstance(st, ast.Assign) for t in st.targets if isinstance(t, ast.Name) and t.id == arg.id]
+            if len(vals) == 1 and isinstance(vals[0], ast.Constant) and isinstance(vals[0].value, str):
+                return vals[0].value
+    raise AnalysisError("date format `%s` of a strftime/strptime call is not a constant the analysis can resolve" % norm(arg))
+
+
 def fmts(fnode, meth):
-    return [c.args[-1].value for c in ast.walk(fnode) if isinstance(c, ast.Call) and isinstance(c.func, ast.Attribute) and c.func.attr == meth
-            and c.args and isinstance(c.args[-1], ast.Constant) and isinstance(c.args[-1].value, str)]
+    """Formats written (meth='strftime') or parsed (meth='strptime') below ``fnode``.  ``<date>.fromisoformat(x)`` parses
+    exactly %Y-%m-%d and counts as such; the datetime form accepts a family of layouts and is not modelled (AnalysisError)."""
+    out = []
+    for c in ast.walk(fnode):
+        if not (isinstance(c, ast.Call) and isinstance(c.func, ast.Attribute)):
+            continue
+        if c.func.attr == meth and c.args:
+            out.append(_format_text(c.args[-1]))
+        elif meth == "strptime" and c.func.attr == "fromisoformat":
+            recv = norm(c.func.value)
+            if recv.split(".")[-1] == "date":
+                out.append("%Y-%m-%d")
+            else:
+                raise AnalysisError("`%s` parses a family of layouts the format comparison does not model" % norm(c)[:80])
+        elif meth == "strftime" and c.func.attr == "isoformat":
+            raise AnalysisError("`%s` writes a layout that depends on the runtime type of the value; the format comparison does not model it" % norm(c)[:80])
+    return out
 
 
 def returns(fnode):
@@ -233,6 +274,7 @@ def run(ctx):
         if name in ("Array", "DataFrame"):
             continue   # outside the property's list of types (numpy/pandas codecs)
         # R15.b
+        _RESOLVE["ctx"], _RESOLVE["cls"] = ctx, q
         sf, df = fmts(s.node, "strftime"), fmts(d.node, "strptime")
         if sf or df:
             if Counter(sf) == Counter(df):
